@@ -601,6 +601,18 @@ pub fn structured_cases() -> Vec<Case> {
         round_of_path(0, 3, 1, &path(&[1, 2, 3]), 0),
         f(80, 24), k("toggle_flows"), f(80, 24),
     ]));
+    // an outage after the target distance is known: the strategy keeps publishing the carried path length although nothing
+    // answers; the trace data is cleared during the outage, so every hop shown has no address at all; "show all hosts" is
+    // pressed; then the path answers again
+    let outage = |round: usize, n: u8| Op::Round { t: 0, round, largest: n, probes: (1..=n).map(|ttl| ProbeSpec { ttl, kind: 'a', addr: 0 }).collect() };
+    v.push(base(1, vec![
+        f(80, 24), round_of_path(0, 1, 1, &path(&[1, 2, 3]), 0), f(80, 24), k("clear_trace_data"), outage(2, 3), f(80, 24),
+        k("expand_hosts_max"), f(80, 24), round_of_path(0, 3, 1, &path(&[1, 2, 3]), 0), f(80, 24), k("expand_hosts"), f(80, 24), k("contract_hosts"), f(80, 24),
+    ]));
+    v.push(base(4, vec![
+        f(120, 40), round_of_path(0, 1, 1, &path(&[1, 2, 3]), 0), Op::Clear { t: 0 }, outage(2, 3), outage(3, 3), f(120, 40),
+        k("next_hop"), k("toggle_hop_details"), k("expand_hosts_max"), f(120, 40), round_of_path(0, 4, 1, &path(&[1, 5, 3]), 0), f(120, 40), f(80, 24),
+    ]));
     // selection kept while the trace loses all hops (Tracer::clear without TuiApp::clear)
     v.push(base(1, vec![
         f(80, 24), round_of_path(0, 1, 1, &path(&[1, 2, 3, 4]), 0), f(80, 24),
